@@ -75,7 +75,9 @@ func runFaultCase(c *ctx, fc faultCase) (labels []string) {
 		case "idp4xx-empty":
 			return clientRejection(2)
 		case "idpgarbage":
-			return &idpFault{status: 200, body: "<html>proxy error</html>"}
+			return brokenTokenResponse(0)
+		case "idpgarbage-typed":
+			return brokenTokenResponse(1)
 		}
 		return f
 	}
@@ -221,7 +223,7 @@ func runFault(c *ctx) {
 			c.emit("faultdry", "handler", h, "prestate", p, "labels", labels)
 			for i, l := range labels {
 				if strings.HasPrefix(l, "IDP") {
-					for _, k := range []faultPlan{{i, "idp5xx", 1}, {i, "idp5xx", 2}, {i, "idp5xx", -1}, {i, "idp4xx", -1}, {i, "idp4xx-html", -1}, {i, "idp4xx-empty", -1}, {i, "idpgarbage", -1}} {
+					for _, k := range []faultPlan{{i, "idp5xx", 1}, {i, "idp5xx", 2}, {i, "idp5xx", -1}, {i, "idp4xx", -1}, {i, "idp4xx-html", -1}, {i, "idp4xx-empty", -1}, {i, "idpgarbage", -1}, {i, "idpgarbage-typed", -1}} {
 						k := k
 						cases = append(cases, faultCase{h, p, &k})
 					}
